@@ -97,6 +97,11 @@ class Ctx:
 
 
 # ----------------------------------------------------------------------------- shard
+def own_flags():
+    """interpreter flags of this shard, for the helper processes it starts (like is compared with like)"""
+    return ["-O"] * min(2, sys.flags.optimize)
+
+
 def spread_families(cases):
     """every family of cases is spread evenly over the run (order inside a family is kept): when the time
     budget ends a run early on a loaded machine, it has seen the same share of every family instead of
@@ -131,6 +136,15 @@ def shard_main(argv):
             os.sched_setaffinity(0, {sorted(os.sched_getaffinity(0))[idx % len(os.sched_getaffinity(0))]})
         except OSError:
             pass
+        # ... and reports one CPU, as a single-core host does (os.sched_getaffinity already does after pinning)
+        os.cpu_count = lambda: 1
+        try:
+            import multiprocessing
+
+            multiprocessing.cpu_count = lambda: 1
+        except Exception:  # noqa: BLE001
+            pass
+        os.environ["VERIF_SINGLE_CPU"] = "1"
     ctx = Ctx(prop, tier, seed)
     mod = importlib.import_module("vf.props." + prop.lower())
     t0 = time.monotonic()
@@ -244,7 +258,8 @@ def run_check(prop: str, tier: str, seed: int, replay: str | None = None) -> int
     for i in range(nshards):
         out = os.path.join(tmp, f"shard{i}.json")
         logf = open(os.path.join(tmp, f"shard{i}.log"), "w")
-        flags = list(getattr(mod, "SHARD_PYFLAGS", {}).get(i % 16, []))  # e.g. {3: ["-O"]}: that shard runs optimised
+        # shards 3 and 11 run optimised (python -O: assert statements are not compiled in) unless the driver says otherwise
+        flags = list(getattr(mod, "SHARD_PYFLAGS", {3: ["-O"], 11: ["-O"]}).get(i % 16, []))
         p = subprocess.Popen(
             [PY, "-B", "-X", "faulthandler"] + flags + ["-m", "vf.harness", "--shard", prop, tier, str(seed), str(i), str(nshards), out],
             env=env, cwd=VERIF, stdout=logf, stderr=subprocess.STDOUT,
